@@ -15,7 +15,7 @@ variable {γ : Type} {ctl : Controller γ} {E : γ → γ → Prop}
 `input.get(rcs..consumed)` only when it emits) -/
 def flushC (d : Disp γ) (input : Bytes) (consumed : Nat) : Except Err (Disp γ) :=
   match checkedSlice input ⟨d.rcs, consumed⟩ with
-  | none => .error (.panic "flush_remaining_input: range out of bounds (emission disabled)")
+  | none => .error (.panic "flush_remaining_input: range out of bounds")
   | some _ => d.flushRemaining input consumed
 
 theorem flushC_desc (d : Disp γ) (input : Bytes) (c : Nat) :
@@ -40,14 +40,12 @@ theorem flushC_desc (d : Disp γ) (input : Bytes) (c : Nat) :
       refine ⟨_, rfl, ⟨rfl, rfl, rfl, rfl, rfl, rfl, rfl, rfl, rfl, rfl⟩, rfl, h1, h2, by simp⟩
 
 /-- with emission enabled the check is the one the Rust makes -/
-theorem flushC_eq (d : Disp γ) (input : Bytes) (c : Nat) (hem : d.emissionEnabled = true)
-    (h : ∀ m, d.flushRemaining input c ≠ .error (.panic m)) : flushC d input c = d.flushRemaining input c := by
+theorem flushC_eq (d : Disp γ) (input : Bytes) (c : Nat) (hem : d.emissionEnabled = true) :
+    flushC d input c = d.flushRemaining input c := by
   unfold flushC
   cases hcs : checkedSlice input ⟨d.rcs, c⟩ with
   | some out => rfl
   | none =>
-    exfalso
-    apply h "flush_remaining_input: range out of bounds"
     unfold Disp.flushRemaining
     rw [if_pos hem, hcs]
 
@@ -62,7 +60,7 @@ theorem DK.congr_inpS {inpS inpS' inpW : Bytes} {δ d : Nat} {ds dw : Disp γ} (
   · rename_i hd; rw [if_neg hd] at h
     exact ⟨fun g => h0 (h.1 g), fun g =>
       let k := h.2 g
-      ⟨k.ctl, k.eq, ⟨k.bytes.rcs_le, k.bytes.bytes⟩, k.rcs_d, hr, k.tps_d⟩⟩
+      ⟨k.nd, k.ctl, k.eq, ⟨k.bytes.rcs_le, k.bytes.bytes⟩, k.rcs_d, hr, k.tps_d⟩⟩
 
 theorem DK.em {inpS inpW : Bytes} {δ d : Nat} {ds dw : Disp γ} (h : DK ctl E inpS inpW δ d ds dw) :
     dw.emissionEnabled = ds.emissionEnabled := by
@@ -125,7 +123,7 @@ theorem DK.flushS {inpS inpS' inpW : Bytes} {δ d c : Nat} (F : Frame inpS inpW 
     have k := h.2 g'
     have hrc := hloc (Nat.pos_of_ne_zero hd) g'
     have hrd := k.rcs_d
-    refine ⟨?_,
+    refine ⟨k.nd, ?_,
       ⟨by rw [hs.flags]; exact k.eq.flags, by rw [hs.em]; exact k.eq.em, by rw [hs.gffh]; exact k.eq.gffh,
         by rw [hs.paux]; exact k.eq.paux, by rw [hs.enc]; exact k.eq.enc, by rw [hs.nenc]; exact k.eq.nenc⟩,
       hbytes k.bytes, by rw [h1]; omega, by rw [h1]; omega, by rw [hs.tps]; exact k.tps_d⟩
@@ -210,7 +208,9 @@ theorem DK.brkText {inpS inpW : Bytes} {δ d : Nat} (F : Frame inpS inpW δ) (hc
     by_cases hd0 : d = 0
     · subst hd0
       rw [if_pos rfl] at h
-      refine ⟨?_,
+      have hnd0 : ¬ TextDead ctl dw.ctl := fun hdw =>
+        produceText_ok_notDead hcl ds inpS ⟨pc, ⟨a, c⟩, some (.text tt)⟩ tt (by rw [hh]) (hcl.dead_E _ _ h.ctl hdw)
+      refine ⟨hnd0, ?_,
         ⟨by rw [a4]; exact h.eq.flags, by rw [a5]; exact h.eq.em, by rw [a7]; exact h.eq.gffh, by rw [a8]; exact h.eq.paux,
           by rw [a11]; exact h.eq.enc, by rw [a12]; exact h.eq.nenc⟩,
         hbytes h.bytes, by rw [a13]; have := h.bytes.rcs_le; omega, by rw [a13]; exact r2, by rw [a10]; omega⟩
@@ -222,7 +222,7 @@ theorem DK.brkText {inpS inpW : Bytes} {δ d : Nat} (F : Frame inpS inpW δ) (hc
       obtain ⟨l1, l2, l3, l4⟩ := hloc (Nat.pos_of_ne_zero hd0) hft
       have hrd := k.rcs_d
       have htd := k.tps_d
-      refine ⟨?_,
+      refine ⟨k.nd, ?_,
         ⟨by rw [a4]; exact k.eq.flags, by rw [a5]; exact k.eq.em, by rw [a7]; exact k.eq.gffh, by rw [a8]; exact k.eq.paux,
           by rw [a11]; exact k.eq.enc, by rw [a12]; exact k.eq.nenc⟩,
         hbytes k.bytes, by rw [a13]; omega, by rw [a13]; exact r2, by rw [a10]; omega⟩
@@ -287,7 +287,7 @@ theorem DK.flushW {inpS inpW : Bytes} {δ d c' : Nat} {ds dw dw' : Disp γ}
   · rename_i hd; rw [if_neg hd] at h
     refine ⟨fun g => h0 (h.1 g), fun g => ?_⟩
     have k := h.2 g
-    refine ⟨?_,
+    refine ⟨by rw [hs.ctl]; exact k.nd, ?_,
       ⟨by rw [hs.flags]; exact k.eq.flags, by rw [hs.em]; exact k.eq.em, by rw [hs.gffh]; exact k.eq.gffh,
         by rw [hs.paux]; exact k.eq.paux, by rw [hs.enc]; exact k.eq.enc, by rw [hs.nenc]; exact k.eq.nenc⟩,
       hbytes k.bytes, by rw [h1, hr]; omega, k.rcs_in, k.tps_d⟩
